@@ -29,7 +29,7 @@ func init() {
 		MinEffectiveShare: 0.5,
 		RequiredEvents: map[string]int64{"steps": 5000, "queries": 200000, "answers_changed_by_a_step": 1000, "deletes_of_absent_objects": 300,
 			"op_nsRelabel": 100, "op_nsDelete": 50, "op_anpInsert": 100, "op_anpDelete": 100, "op_banpInsert": 50, "op_banpDelete": 50, "op_npInsert": 100, "op_npDelete": 100,
-			"op_podRelabel": 100, "op_podDelete": 50, "op_podPorts": 50, "op_podRecreate": 50, "op_SetResources": 100, "op_clearRepopulate": 50, "histories_starting_from_the_constructor": 100, "op_failingBulkSet": 50},
+			"op_podRelabel": 100, "op_podDelete": 50, "op_podPorts": 50, "op_podRecreate": 50, "op_SetResources": 100, "op_clearRepopulate": 50, "histories_starting_from_the_constructor": 100, "op_failingBulkSet": 50, "op_podPending": 50},
 	})
 }
 
@@ -294,7 +294,7 @@ func runC15(c *run.Ctx) {
 	check(false) // same queries again: now (partly) from the cache
 	for step := 0; step < steps && len(r.Violations) == 0; step++ {
 		r.Ev("steps", 1)
-		op := rng.Pick(g, []string{"podRelabel", "podDelete", "podAdd", "podPorts", "podRecreate", "nsRelabel", "nsRelabel", "nsDelete", "npInsert", "npDelete", "npReplace",
+		op := rng.Pick(g, []string{"podPending", "podRelabel", "podDelete", "podAdd", "podPorts", "podRecreate", "nsRelabel", "nsRelabel", "nsDelete", "npInsert", "npDelete", "npReplace",
 			"anpInsert", "anpInsert", "anpDelete", "banpInsert", "banpDelete", "banpReplace", "deleteAbsent", "deleteAbsent", "requery", "bulkSet", "clearRepopulate", "failingBulkSet"})
 		done := false
 		switch op {
@@ -309,6 +309,36 @@ func runC15(c *run.Ctx) {
 				}
 				wl.Labels = nl
 				st.insertWorkload(wl)
+				done = true
+			}
+		case "podPending":
+			// the pods of a workload are re-inserted relabelled but WITHOUT status (Pending: no host address, no pod addresses). The
+			// engine may refuse such a pod (then nothing changed) or take it (then the relabelled pod is what it holds) - never both
+			if len(st.w.Workloads) > 0 {
+				wl := &st.w.Workloads[g.Intn(len(st.w.Workloads))]
+				old := wl.Labels
+				nl := map[string]string{}
+				for _, k := range world.Keys {
+					if g.P(0.55) {
+						nl[k] = rng.Pick(g, world.Vals)
+					}
+				}
+				wl.Labels, wl.Pending = nl, true
+				taken, refused := 0, 0
+				for _, d := range world.WorkloadDocs(wl) {
+					if st.call("insert Pod "+d.Ns+"/"+d.Name+" (Pending, relabelled)", st.eng.Insert(st.obj(d)), false) {
+						taken++
+					} else {
+						refused++
+					}
+				}
+				wl.Pending = false
+				if taken == 0 {
+					wl.Labels = old // refused: the engine still holds the previous version
+				} else if refused > 0 {
+					st.insertWorkload(wl) // mixed outcome: bring every pod of the owner to the new version the regular way
+				}
+				r.Ev("op_podPending", 1)
 				done = true
 			}
 		case "podPorts":
